@@ -78,7 +78,7 @@ func (d *durCtx) appendLocallyGood(f *ssa.Function) []ssa.Instruction {
 			writes = append(writes, fe.Ins)
 		}
 	}
-	q := PathQuery{P: d.p, Fn: f, Starts: writes, Avoid: d.walSync.Avoid(f), EdgeOK: d.walSync.EdgeOK(f), Target: isSuccessReturn}
+	q := PathQuery{P: d.p, Fn: f, Starts: writes, Avoid: d.walSync.Avoid(f), EdgeOK: d.walSync.EdgeOK(f), Target: isSuccessReturn, SuccessOnly: true}
 	return q.FindPath()
 }
 
@@ -134,7 +134,7 @@ func init() {
 				r.Undecided(p.FnName(commit), "ts-alloc", p.Pos(commit.Pos()), "no call in Commit reaches a store to oracle.nextTs")
 				return
 			}
-			q := PathQuery{P: p, Fn: commit, Starts: starts, Avoid: d.walAppend.Avoid(commit), EdgeOK: d.walAppend.EdgeOK(commit), Target: isSuccessReturn}
+			q := PathQuery{P: p, Fn: commit, Starts: starts, Avoid: d.walAppend.Avoid(commit), EdgeOK: d.walAppend.EdgeOK(commit), Target: isSuccessReturn, SuccessOnly: true}
 			if w := q.FindPath(); w != nil {
 				r.Viol(p.FnName(commit), "success-return", p.Pos(instrPos(w[len(w)-1])), "Commit can return nil after allocating a commit timestamp without a durable wal append on this path", p.describePath(w)...)
 			} else {
@@ -204,7 +204,7 @@ func init() {
 		Desc: "table files never appear half-made under the name scanned by recovery: they are created under a temporary name, written, fsynced (checked) and only then renamed",
 		Run:  runDurPublish})
 
-	register(&Rule{ID: "DUR.SIB", Engine: "E-SIB", Min: 3,
+	register(&Rule{ID: "DUR.SIB", Engine: "E-SIB", Min: 2,
 		Desc: "every table image produced by table.Build is handed to the durable table writer and its error is checked",
 		Run: func(c *Ctx, r *RuleRun) {
 			d := c.Dur()
@@ -727,7 +727,7 @@ func runDurPublish(c *Ctx, r *RuleRun) {
 						r.Hold(fn, "create(other)", pos, "created without content")
 						break
 					}
-					q := PathQuery{P: p, Fn: f, Starts: []ssa.Instruction{fe.Ins}, Avoid: md.Instr, Target: isSuccessReturn}
+					q := PathQuery{P: p, Fn: f, Starts: []ssa.Instruction{fe.Ins}, Avoid: md.Instr, Target: isSuccessReturn, SuccessOnly: true}
 					r.Check(q.FindPath() == nil, fn, "create(other)", pos, "content is fsynced before the function returns successfully",
 						"a file the engine reads back is written but not fsynced before its writer returns")
 				}
